@@ -24,13 +24,15 @@ RULE = ("2-7 commands, some internal ('!'), each with a random set of earlier co
         "two different parents; distinct by graph.")
 ASSUMPTIONS = ["option names are prefix-free (argparse abbreviations are not under test)"]
 TIERS = {
-    "quick": {"shards": 4, "cases": 600, "timeout": 300},
-    "thorough": {"shards": 16, "cases": 4000, "timeout": 3000},
+    "quick": {"shards": 4, "cases": 600, "timeout": 300, "py_flags_by_shard": {2: ["-O"], 3: ["-OO"]}},
+    "thorough": {"shards": 16, "cases": 4000, "timeout": 3000, "py_flags_by_shard": {13: ["-O"], 14: ["-OO"], 15: ["-O"]}},
 }
 FLOORS = {"quick": {"distinct_nontrivial": 300, "command_option_decisions": 10000, "accepted": 3000, "rejected": 3000,
-                    "default_command_vectors": 500, "std_option_vectors": 5000},
+                    "default_command_vectors": 500, "std_option_vectors": 5000,
+                    "graphs_judged_in_an_optimized_interpreter": 1000},
           "thorough": {"distinct_nontrivial": 15000, "command_option_decisions": 600000, "accepted": 200000,
-                       "rejected": 200000, "default_command_vectors": 30000, "std_option_vectors": 300000}}
+                       "rejected": 200000, "default_command_vectors": 30000, "std_option_vectors": 300000,
+                       "graphs_judged_in_an_optimized_interpreter": 10000}}
 LEVEL_TEXT = ("Runtime exploration over command graphs: the real ArgParser is built for each generated declaration list "
               "and every (command, option) pair is decided by actually parsing an argument vector, compared with the "
               "transitive closure computed by the harness.")
@@ -112,6 +114,9 @@ def parse(ap, argv, through_sys_argv):
 
 def judge(ctx, g, case):
     ctx.evaluated()
+    if sys.flags.optimize:
+        # (this shard runs in an interpreter started with -O / -OO: assert statements are compiled away)
+        ctx.count("graphs_judged_in_an_optimized_interpreter")
     anc = ancestors(g)
     try:
         with contextlib.redirect_stderr(io.StringIO()), contextlib.redirect_stdout(io.StringIO()):
